@@ -16,9 +16,14 @@
                 operation the stream ids, reservations and nextStreamID of every pooled
                 connection are compared with the real pool.
    H3SnapCase : useCounts of the REAL HTTP/3 client cache with the harness's upper bound on
-                requests in flight ([h3snap_ok]). *)
+                requests in flight ([h3snap_ok]).
+   ExpectCase : one Expect: 100-continue exchange as a raw origin saw it ([expect_case_ok]).
+   H2HdrCase  : a sequential forced-HTTP/2 scenario with response header lists around the
+                client's MaxHeaderListSize, replayed through [hconn_step] ([hdr_replay]).
+   AsyncDumpCase : the chunks a caller streamed through one buffer under a lagging asynchronous
+                dumper, and what the dump received ([async_dump_ok]). *)
 From Coq Require Import List Arith Bool ZArith.
-From ReqV Require Export Lib.Bytes Model.Pool Model.Demux Model.H2Pool Model.H3Cache.
+From ReqV Require Export Lib.Bytes Model.Pool Model.Demux Model.H2Pool Model.H3Cache Model.Carried.
 Import ListNotations.
 
 Inductive op :=
@@ -199,7 +204,10 @@ Inductive c09_case :=
 | DemuxCase (open : list sid) (wire : list (sid * bytes)) (received : list (sid * bytes))
 | H2SnapCase (ks : list h2key_snap)
 | H2ReplayCase (maxconc : nat) (steps : list (h2op * h2obs))
-| H3SnapCase (inflight_upper : nat) (uses : list Z).
+| H3SnapCase (inflight_upper : nat) (uses : list Z)
+| ExpectCase (sent100 resp_close : bool) (announced received : nat) (reused : bool)
+| H2HdrCase (limit : nat) (obs : list hdr_obs)
+| AsyncDumpCase (chunks : list bytes) (dumped : bytes).
 
 Definition c09_check (c : c09_case) : bool :=
   match c with
@@ -210,4 +218,7 @@ Definition c09_check (c : c09_case) : bool :=
   | H2SnapCase ks => h2snap_ok ks
   | H2ReplayCase m steps => h2_replay m h2_init steps
   | H3SnapCase n uses => h3snap_ok n uses
+  | ExpectCase s100 rc ann rcv reused => expect_case_ok s100 rc ann rcv reused
+  | H2HdrCase limit obs => hdr_replay limit hconn_init 0 obs
+  | AsyncDumpCase chunks dumped => async_dump_ok chunks dumped
   end.
